@@ -25,45 +25,30 @@ theorem flatMap_encBytes_length (C : Codecs) (typ : String) (size : Nat) (vs : L
     simp only [List.flatMap_cons, List.length_append, List.length_cons, Nat.mul_succ]
     rw [h v (List.mem_cons_self ..), ih (fun y hy => h y (List.mem_cons_of_mem _ hy))]; omega
 
-/-- what the run may rely on in the receiving structure (`recvFields`): a fixed array `(f, true)` has the length the
-    sender's has; an optional integer `(f, false)` the sender holds as zero is zero -/
-def Recv (fs : List (String × Bool)) (e env' : Env) : Prop :=
-  ∀ p ∈ fs,
-    (p.2 = true → ∃ old xs, e.get p.1 = some (.ns old) ∧ env'.get p.1 = some (.ns xs) ∧ old.length = xs.length) ∧
-    (p.2 = false → env'.get p.1 = some (.n 0) → e.get p.1 = some (.n 0))
+/-- what the run may rely on in the receiving structure (`recvFields`): a fixed array has the length the sender's has -/
+def Recv (fs : List String) (e env' : Env) : Prop :=
+  ∀ f ∈ fs, ∃ old xs, e.get f = some (.ns old) ∧ env'.get f = some (.ns xs) ∧ old.length = xs.length
 
-theorem Recv.set {fs : List (String × Bool)} {e env' : Env} (h : Recv fs e env') (g : String) (v : Val)
+theorem Recv.set {fs : List String} {e env' : Env} (h : Recv fs e env') (g : String) (v : Val)
     (hv : env'.get g = some v) : Recv fs (e.set g v) env' := by
-  intro p hp
-  obtain ⟨hs, hf⟩ := h p hp
-  by_cases hfg : p.1 = g
-  · refine ⟨fun hp2 => ?_, fun hp2 h0 => ?_⟩
-    · obtain ⟨old, xs, h1, h2, h3⟩ := hs hp2
-      rw [hfg] at h2
-      rw [h2] at hv
-      injection hv with hv
-      subst hv
-      exact ⟨xs, xs, by rw [hfg]; exact Env.get_set_self _ _ _, by rw [hfg]; exact h2, rfl⟩
-    · rw [hfg] at h0 ⊢
-      rw [h0] at hv
-      injection hv with hv
-      subst hv
-      exact Env.get_set_self _ _ _
-  · refine ⟨fun hp2 => ?_, fun hp2 h0 => ?_⟩
-    · obtain ⟨old, xs, h1, h2, h3⟩ := hs hp2
-      exact ⟨old, xs, by rw [Env.get_set_ne _ _ _ _ hfg]; exact h1, h2, h3⟩
-    · rw [Env.get_set_ne _ _ _ _ hfg]; exact hf hp2 h0
+  intro f hf
+  obtain ⟨old, xs, h1, h2, h3⟩ := h f hf
+  by_cases hfg : f = g
+  · rw [hfg] at h2
+    rw [h2] at hv
+    injection hv with hv
+    subst hv
+    exact ⟨xs, xs, by rw [hfg]; exact Env.get_set_self _ _ _, by rw [hfg]; exact h2, rfl⟩
+  · exact ⟨old, xs, by rw [Env.get_set_ne _ _ _ _ hfg]; exact h1, h2, h3⟩
 
-theorem Recv.congr_left {fs : List (String × Bool)} {e e2 env' : Env} (h : Recv fs e env') (hg : ∀ x, e2.get x = e.get x) :
+theorem Recv.congr_left {fs : List String} {e e2 env' : Env} (h : Recv fs e env') (hg : ∀ x, e2.get x = e.get x) :
     Recv fs e2 env' := by
-  intro p hp
-  obtain ⟨hs, hf⟩ := h p hp
-  refine ⟨fun hp2 => ?_, fun hp2 h0 => by rw [hg]; exact hf hp2 h0⟩
-  obtain ⟨old, xs, h1, h2, h3⟩ := hs hp2
+  intro f hf
+  obtain ⟨old, xs, h1, h2, h3⟩ := h f hf
   exact ⟨old, xs, by rw [hg]; exact h1, h2, h3⟩
 
-theorem Recv.sized {fs : List (String × Bool)} {e env' : Env} (h : Recv fs e env') {f : String} (hf : (f, true) ∈ fs) :
-    ∃ old xs, e.get f = some (.ns old) ∧ env'.get f = some (.ns xs) ∧ old.length = xs.length := (h (f, true) hf).1 rfl
+theorem Recv.sized {fs : List String} {e env' : Env} (h : Recv fs e env') {f : String} (hf : f ∈ fs) :
+    ∃ old xs, e.get f = some (.ns old) ∧ env'.get f = some (.ns xs) ∧ old.length = xs.length := h f hf
 
 theorem Agree.congr_left {fs : List String} {e e2 env' : Env} (h : Agree fs e env') (hg : ∀ x, e2.get x = e.get x) :
     Agree fs e2 env' := fun f hf => by rw [hg]; exact h f hf
@@ -308,12 +293,14 @@ theorem guard_passesL {C : Codecs} {T : String → Prop} (hC : LawfulCodecs C T)
     have hlen := congrArg List.length hblk
     simp only [Slot.blk, slotBytes, hget, List.length_append] at hlen
     omega
-  | case23 k b' n b'' w e' f m r hc _ => intro u pos seen s pad _ _ hg; simp [guardFitsL] at hg
-  | case24 k b' n b'' w e' f m r hc => intro u pos seen s pad hl; simp [layoutUL, hc] at hl
-  | case25 e' r _ => intro u pos seen s pad _ _ hg; simp [guardFitsL] at hg
-  | case26 r _ => intro u pos seen s pad _ _ hg; simp [guardFitsL] at hg
-  | case27 r _ => intro u pos seen s pad _ _ hg; simp [guardFitsL] at hg
-  | case28 head tail h1 h2 h3 h4 h5 h6 h7 h8 h9 h10 h11 h12 h13 h14 h15 h16 h17 h18 =>
+  | case23 f0 k b' n b'' w e' f m r hc _ => intro u pos seen s pad _ _ hg; simp [guardFitsL] at hg
+  | case24 f0 k b' n b'' w e' f m r hc => intro u pos seen s pad hl; simp [layoutUL, hc] at hl
+  | case25 f0 n k b' g b'' f m r hc _ => intro u pos seen s pad _ _ hg; simp [guardFitsL] at hg
+  | case26 f0 n k b' g b'' f m r hc => intro u pos seen s pad hl; simp [layoutUL, hc] at hl
+  | case27 e' r _ => intro u pos seen s pad _ _ hg; simp [guardFitsL] at hg
+  | case28 r _ => intro u pos seen s pad _ _ hg; simp [guardFitsL] at hg
+  | case29 r _ => intro u pos seen s pad _ _ hg; simp [guardFitsL] at hg
+  | case30 head tail h1 h2 h3 h4 h5 h6 h7 h8 h9 h10 h11 h12 h13 h14 h15 h16 h17 h18 h19 =>
     intro u pos seen s pad hl
     rw [layoutUL] at hl
     · cases hl
@@ -324,10 +311,44 @@ theorem guard_passesL {C : Codecs} {T : String → Prop} (hC : LawfulCodecs C T)
 /-- "WordCount tells which": for every optional slot of the layout, the word count of the message equals the one
     Unmarshal tests for iff the field is non-zero (so: on the wire) -/
 def WcTells (env' : Env) (wc : Nat) (u : List Slot) : Prop :=
-  ∀ b w e f k, Slot.opt b w e f (some k) ∈ u → ∀ x, env'.get f = some (.n x) → (wc = k ↔ x ≠ 0)
+  (∀ b w e f k, Slot.opt b w e f (some k) ∈ u → ∀ x, env'.get f = some (.n x) → (wc = k ↔ x ≠ 0)) ∧
+  (∀ b w e f n k, Slot.optInts b w e f n (some k) ∈ u → ∀ xs, env'.get f = some (.ns xs) → xs.length = n →
+    (wc = k ↔ xs.any (· != 0) = true))
 
 theorem WcTells.tail {env' : Env} {wc : Nat} {sl : Slot} {u : List Slot} (h : WcTells env' wc (sl :: u)) :
-    WcTells env' wc u := fun b w e f k hm => h b w e f k (List.mem_cons_of_mem _ hm)
+    WcTells env' wc u :=
+  ⟨fun b w e f k hm => h.1 b w e f k (List.mem_cons_of_mem _ hm),
+   fun b w e f n k hm => h.2 b w e f n k (List.mem_cons_of_mem _ hm)⟩
+
+/-- three little-endian 32-bit integers read by the composite literal `[3]T{…}` of WRITE_AND_CLOSE -/
+theorem step_readArr3 (C : Codecs) (s : UState) (b : Blk) (f : String) (pre post : Bytes) (x y z : Nat)
+    (hx : x < 256 ^ 4) (hy : y < 256 ^ 4) (hz : z < 256 ^ 4)
+    (hblk : s.blk b = pre ++ ([x, y, z].flatMap (intBytes 4 .le) ++ post)) (hoff : s.offset = pre.length) :
+    runUStmt C s (.readArr3 b f) = .next { s with env := s.env.set f (.ns [x, y, z]) } := by
+  have hb : s.blk b = pre ++ (intBytes 4 .le x ++ (intBytes 4 .le y ++ (intBytes 4 .le z ++ post))) := by
+    rw [hblk]; simp [List.flatMap_cons, List.append_assoc]
+  have h1 : sliceC (s.blk b) (s.ext b) s.offset (s.offset + 4) = .ok (intBytes 4 .le x) := by
+    rw [hb, hoff]; exact sliceC_mid pre _ _ _ 4 (intBytes_length 4 .le x).symm
+  have h2 : sliceC (s.blk b) (s.ext b) (s.offset + 4) (s.offset + 8) = .ok (intBytes 4 .le y) := by
+    have e : s.blk b = (pre ++ intBytes 4 .le x) ++ (intBytes 4 .le y ++ (intBytes 4 .le z ++ post)) := by
+      rw [hb]; simp [List.append_assoc]
+    have hl : s.offset + 4 = (pre ++ intBytes 4 .le x).length := by simp [hoff, intBytes_length]
+    have hl8 : s.offset + 8 = (pre ++ intBytes 4 .le x).length + 4 := by simp [hoff, intBytes_length]
+    rw [e, hl8, hl]
+    exact sliceC_mid (pre ++ intBytes 4 .le x) (intBytes 4 .le y) (intBytes 4 .le z ++ post) (s.ext b) 4
+      (intBytes_length 4 .le y).symm
+  have h3 : sliceC (s.blk b) (s.ext b) (s.offset + 8) (s.offset + 12) = .ok (intBytes 4 .le z) := by
+    have e : s.blk b = (pre ++ intBytes 4 .le x ++ intBytes 4 .le y) ++ (intBytes 4 .le z ++ post) := by
+      rw [hb]; simp [List.append_assoc]
+    have hl : s.offset + 8 = (pre ++ intBytes 4 .le x ++ intBytes 4 .le y).length := by simp [hoff, intBytes_length]
+    have hl12 : s.offset + 12 = (pre ++ intBytes 4 .le x ++ intBytes 4 .le y).length + 4 := by simp [hoff, intBytes_length]
+    rw [e, hl12, hl]
+    exact sliceC_mid _ (intBytes 4 .le z) post (s.ext b) 4 (intBytes_length 4 .le z).symm
+  have v1 : leNat (intBytes 4 .le x) = x := intVal_intBytes 4 .le x hx
+  have v2 : leNat (intBytes 4 .le y) = y := intVal_intBytes 4 .le y hy
+  have v3 : leNat (intBytes 4 .le z) = z := intVal_intBytes 4 .le z hz
+  rw [runUStmt, h1, h2, h3]
+  simp only [v1, v2, v3]
 
 theorem runU_go_layoutL {C : Codecs} {T : String → Prop} (hC : LawfulCodecs C T) (env' : Env) (plen : Nat) (hp hd : Bool)
     (stmts : List UStmt) :
@@ -698,66 +719,154 @@ theorem runU_go_layoutL {C : Codecs} {T : String → Prop} (hC : LawfulCodecs C 
     · simp only [List.map_cons, List.map_nil, List.mem_singleton, Slot.field] at hg
       subst hg
       exact hag' g (List.mem_cons_self ..)
-  | case23 k b n b' w e f m r hcond ih =>
+  | case23 f0 k b n b' w e f m r hcond ih =>
     intro u pos seen s pad hl hok hrel hfit hrest hinv hag hsz hwc hpd hpl
-    obtain ⟨rfl, hn, hm⟩ := hcond
+    simp only [recvFields] at hsz
+    obtain ⟨rfl, rfl, hn, hm⟩ := hcond
     subst hm
     subst hn
     simp only [layoutUL, and_self, if_true, Option.map_eq_some_iff] at hl
     obtain ⟨u', hl', rfl⟩ := hl
     simp only [okUL, Bool.and_eq_true] at hok
     have hrel' : relationsHold C env' plen pad r = true := by
-      unfold relationsHold at hrel; rw [Bool.and_eq_true] at hrel; exact hrel.2
-    obtain ⟨x, hx, hlt⟩ := hfit (.opt b n e f (some k)) (List.mem_cons_self ..)
-    obtain ⟨pre, hblk, hoff⟩ := hinv.at (sl := .opt b n e f (some k)) hok.1
-    have hiff := hwc b n e f k (List.mem_cons_self ..) x hx
-    have hsz' : Recv (recvFields r) s.env env' := fun p hp => hsz p (by simp [recvFields, hp])
+      have h1 : relationsHold C env' plen pad
+          (.ifWordCount k [.guard b (.lit n), .readInt b n e f0, .advance (.lit n)] :: r) = true := by
+        simpa [relationsHold] using hrel
+      unfold relationsHold at h1; rw [Bool.and_eq_true] at h1; exact h1.2
+    obtain ⟨x, hx, hlt⟩ := hfit (.opt b n e f0 (some k)) (List.mem_cons_self ..)
+    obtain ⟨pre, hblk, hoff⟩ := hinv.at (sl := .opt b n e f0 (some k)) hok.1
+    have hiff := hwc.1 b n e f0 k (List.mem_cons_self ..) x hx
+    -- `c.F = 0` first: whatever the receiver held is gone
+    let s1 : UState := { s with env := s.env.set f0 (.n 0) }
+    have h0 : runUStmt C s (.zeroInt f0) = .next s1 := by rw [runUStmt]
     by_cases hx0 : x = 0
-    · -- the field is not on the wire, the word count says so, and the receiver holds zero already
-      have hne : ¬ s.wordCount = k := fun h => (hiff.mp h) hx0
-      have h1 : runUStmt C s (.ifWordCount k [.guard b (.lit n), .readInt b n e f, .advance (.lit n)]) = .next s := by
+    · -- the field is not on the wire, the word count says so, and the reset has put zero there
+      have hne : ¬ s1.wordCount = k := fun h => (hiff.mp h) hx0
+      have h1 : runUStmt C s1 (.ifWordCount k [.guard b (.lit n), .readInt b n e f0, .advance (.lit n)]) = .next s1 := by
         rw [runUStmt, if_neg hne]
-      have hsb : slotBytes C env' (.opt b n e f (some k)) = [] := by simp [slotBytes, hx, hx0]
-      have hinv' := hinv.step (sl := .opt b n e f (some k)) hok.1
+      have hsb : slotBytes C env' (.opt b n e f0 (some k)) = [] := by simp [slotBytes, hx, hx0]
+      have hinv' := hinv.step (sl := .opt b n e f0 (some k)) hok.1
       rw [hsb] at hinv'
       simp only [List.length_nil, Nat.add_zero] at hinv'
-      have hsf : s.env.get f = some (.n 0) := (hsz (f, false) (by simp [recvFields])).2 rfl (by rw [hx, hx0])
-      have hag' : Agree (f :: seen) s.env env' := by
-        intro g hg
-        rcases List.mem_cons.mp hg with rfl | hg
-        · rw [hsf, hx, hx0]
-        · exact hag g hg
-      obtain ⟨d, hd, hseen, hagree⟩ := ih u' (pos.read b) (f :: seen) s pad hl' hok.2 hrel'
-        (fun sl h => hfit sl (List.mem_cons_of_mem _ h)) (restOnlyLast_tail hrest) hinv' hag' hsz' hwc.tail hpd hpl
-      exact ⟨d, by rw [go_next r h1]; exact hd, fun g hg => hseen g (List.mem_cons_of_mem _ hg),
+      have hx' : env'.get f0 = some (.n 0) := by rw [hx, hx0]
+      obtain ⟨d, hd, hseen, hagree⟩ := ih u' (pos.read b) (f0 :: seen) s1 pad hl' hok.2 hrel'
+        (fun sl h => hfit sl (List.mem_cons_of_mem _ h)) (restOnlyLast_tail hrest) hinv' (hag.set f0 (.n 0) hx')
+        (hsz.set f0 (.n 0) hx') hwc.tail hpd hpl
+      exact ⟨d, by rw [go_next2 r h0 h1]; exact hd, fun g hg => hseen g (List.mem_cons_of_mem _ hg),
         fun hnf g hg => hagree hnf g (mem_shift hg)⟩
     · -- the field is on the wire and the word count says so
-      have heq : s.wordCount = k := hiff.mpr hx0
-      have hsb : slotBytes C env' (.opt b n e f (some k)) = intBytes n e x := by simp [slotBytes, hx, hx0]
+      have heq : s1.wordCount = k := hiff.mpr hx0
+      have hsb : slotBytes C env' (.opt b n e f0 (some k)) = intBytes n e x := by simp [slotBytes, hx, hx0]
       rw [hsb] at hblk
-      have hblk' : s.blk b = pre ++ (intBytes n e x ++ layoutBytes C env' (u'.filter (·.blk == b))) :=
+      have hblk' : s1.blk b = pre ++ (intBytes n e x ++ layoutBytes C env' (u'.filter (·.blk == b))) :=
         (blk_eq_pick s b).trans hblk
-      have hg : runUStmt C s (.guard b (.lit n)) = .next s := by
+      have hg : runUStmt C s1 (.guard b (.lit n)) = .next s1 := by
         rw [runUStmt]
         simp only [evalExpr]
-        rw [if_neg (by rw [hblk']; simp only [List.length_append, intBytes_length]; omega)]
-      have hr := step_readInt C s b n e f pre _ _ hblk' hoff (intBytes_length n e x).symm
+        rw [if_neg (by rw [hblk']; simp only [List.length_append, intBytes_length]; show ¬ _ < s.offset + n; omega)]
+      have hr := step_readInt C s1 b n e f0 pre _ _ hblk' hoff (intBytes_length n e x).symm
       rw [intVal_intBytes n e x hlt] at hr
-      have ha := step_advance C { s with env := s.env.set f (.n x) } (.lit n) n rfl
-      have h1 : runUStmt C s (.ifWordCount k [.guard b (.lit n), .readInt b n e f, .advance (.lit n)]) =
-          .next { s with env := s.env.set f (.n x), offset := s.offset + n } := by
+      have ha := step_advance C { s1 with env := s1.env.set f0 (.n x) } (.lit n) n rfl
+      have h1 : runUStmt C s1 (.ifWordCount k [.guard b (.lit n), .readInt b n e f0, .advance (.lit n)]) =
+          .next { s1 with env := s1.env.set f0 (.n x), offset := s1.offset + n } := by
         rw [runUStmt, if_pos heq]
         simp only [runUStmts, hg, hr, ha]
-      have hinv' := hinv.step (sl := .opt b n e f (some k)) hok.1
+      have hinv' := hinv.step (sl := .opt b n e f0 (some k)) hok.1
       rw [hsb, intBytes_length] at hinv'
-      obtain ⟨d, hd, hseen, hagree⟩ := ih u' (pos.read b) (f :: seen)
-        { s with env := s.env.set f (.n x), offset := s.offset + n } pad hl' hok.2 hrel'
-        (fun sl h => hfit sl (List.mem_cons_of_mem _ h)) (restOnlyLast_tail hrest) hinv' (hag.set f (.n x) hx)
-        (hsz'.set f (.n x) hx) hwc.tail hpd hpl
-      exact ⟨d, by rw [go_next r h1]; exact hd, fun g hg => hseen g (List.mem_cons_of_mem _ hg),
+      have hgs : ∀ y, ((s.env.set f0 (.n 0)).set f0 (.n x)).get y = (s.env.set f0 (.n x)).get y := by
+        intro y; simp only [Env.get_set]; split <;> rfl
+      obtain ⟨d, hd, hseen, hagree⟩ := ih u' (pos.read b) (f0 :: seen)
+        { s1 with env := s1.env.set f0 (.n x), offset := s1.offset + n } pad hl' hok.2 hrel'
+        (fun sl h => hfit sl (List.mem_cons_of_mem _ h)) (restOnlyLast_tail hrest) hinv'
+        ((hag.set f0 (.n x) hx).congr_left hgs) ((hsz.set f0 (.n x) hx).congr_left hgs) hwc.tail hpd hpl
+      exact ⟨d, by rw [go_next2 r h0 h1]; exact hd, fun g hg => hseen g (List.mem_cons_of_mem _ hg),
         fun hnf g hg => hagree hnf g (mem_shift hg)⟩
-  | case24 k b n b' w e f m r hc => intro u pos seen s pad hl; simp [layoutUL, hc] at hl
-  | case25 e r ih =>
+  | case24 f0 k b n b' w e f m r hc => intro u pos seen s pad hl; simp [layoutUL, hc] at hl
+  | case25 f0 n k b g b' f m r hcond ih =>
+    intro u pos seen s pad hl hok hrel hfit hrest hinv hag hsz hwc hpd hpl
+    simp only [recvFields] at hsz
+    obtain ⟨rfl, rfl, rfl, rfl, rfl⟩ := hcond
+    simp only [layoutUL, and_self, if_true, Option.map_eq_some_iff] at hl
+    obtain ⟨u', hl', rfl⟩ := hl
+    simp only [okUL, Bool.and_eq_true] at hok
+    have hrel1 : relationsHold C env' plen pad
+        (.ifWordCount k [.guard b (.lit 12), .readArr3 b f0, .advance (.lit 12)] :: r) = true := by
+      simpa [relationsHold] using hrel
+    unfold relationsHold at hrel1
+    rw [Bool.and_eq_true] at hrel1
+    obtain ⟨hbody, hrel'⟩ := hrel1
+    obtain ⟨xs, hx, hlt⟩ := hfit (.optInts b 4 .le f0 3 (some k)) (List.mem_cons_self ..)
+    have hlen3 : xs.length = 3 := by
+      have hb2 : relationsHold C env' plen pad [.readArr3 b f0, .advance (.lit 12)] = true := by
+        simpa [relationsHold] using hbody
+      unfold relationsHold at hb2
+      rw [Bool.and_eq_true] at hb2
+      have := hb2.1
+      rw [hx] at this
+      simpa using this
+    obtain ⟨pre, hblk, hoff⟩ := hinv.at (sl := .optInts b 4 .le f0 3 (some k)) hok.1
+    have hiff := hwc.2 b 4 .le f0 3 k (List.mem_cons_self ..) xs hx hlen3
+    -- `c.F = [3]T{0, 0, 0}` first: whatever the receiver held is gone
+    let s1 : UState := { s with env := s.env.set f0 (.ns (List.replicate 3 0)) }
+    have h0 : runUStmt C s (.zeroInts f0 3) = .next s1 := by rw [runUStmt]
+    by_cases hany : xs.any (· != 0) = true
+    · -- the array is on the wire and the word count says so
+      have heq : s1.wordCount = k := hiff.mpr hany
+      obtain ⟨x, y, z, rfl⟩ : ∃ x y z, xs = [x, y, z] := by
+        match xs, hlen3 with
+        | [x, y, z], _ => exact ⟨x, y, z, rfl⟩
+      have hsb : slotBytes C env' (.optInts b 4 .le f0 3 (some k)) = [x, y, z].flatMap (intBytes 4 .le) := by
+        simp only [slotBytes, hx, hany, if_true]
+      rw [hsb] at hblk
+      have hblk' : s1.blk b = pre ++ ([x, y, z].flatMap (intBytes 4 .le) ++ layoutBytes C env' (u'.filter (·.blk == b))) :=
+        (blk_eq_pick s b).trans hblk
+      have hl12 : ([x, y, z].flatMap (intBytes 4 .le)).length = 12 := by simp [List.flatMap_cons, intBytes_length]
+      have hg : runUStmt C s1 (.guard b (.lit 12)) = .next s1 := by
+        rw [runUStmt]
+        simp only [evalExpr]
+        rw [if_neg (by rw [hblk']; simp only [List.length_append, hl12]; show ¬ _ < s.offset + 12; omega)]
+      have hr := step_readArr3 C s1 b f0 pre _ x y z (hlt x (by simp)) (hlt y (by simp)) (hlt z (by simp)) hblk' hoff
+      have ha := step_advance C { s1 with env := s1.env.set f0 (.ns [x, y, z]) } (.lit 12) 12 rfl
+      have h1 : runUStmt C s1 (.ifWordCount k [.guard b (.lit 12), .readArr3 b f0, .advance (.lit 12)]) =
+          .next { s1 with env := s1.env.set f0 (.ns [x, y, z]), offset := s1.offset + 12 } := by
+        rw [runUStmt, if_pos heq]
+        simp only [runUStmts, hg, hr, ha]
+      have hinv' := hinv.step (sl := .optInts b 4 .le f0 3 (some k)) hok.1
+      rw [hsb, hl12] at hinv'
+      have hgs : ∀ q, ((s.env.set f0 (.ns (List.replicate 3 0))).set f0 (.ns [x, y, z])).get q = (s.env.set f0 (.ns [x, y, z])).get q := by
+        intro q; simp only [Env.get_set]; split <;> rfl
+      obtain ⟨d, hd, hseen, hagree⟩ := ih u' (pos.read b) (f0 :: seen)
+        { s1 with env := s1.env.set f0 (.ns [x, y, z]), offset := s1.offset + 12 } pad hl' hok.2 hrel'
+        (fun sl h => hfit sl (List.mem_cons_of_mem _ h)) (restOnlyLast_tail hrest) hinv'
+        ((hag.set f0 (.ns [x, y, z]) hx).congr_left hgs) ((hsz.set f0 (.ns [x, y, z]) hx).congr_left hgs) hwc.tail hpd hpl
+      exact ⟨d, by rw [go_next2 r h0 h1]; exact hd, fun g hg => hseen g (List.mem_cons_of_mem _ hg),
+        fun hnf g hg => hagree hnf g (mem_shift hg)⟩
+    · -- no element is set: the array is not on the wire, the word count says so, and the reset has put the zeros there
+      have hne : ¬ s1.wordCount = k := fun h => hany (hiff.mp h)
+      have h1 : runUStmt C s1 (.ifWordCount k [.guard b (.lit 12), .readArr3 b f0, .advance (.lit 12)]) = .next s1 := by
+        rw [runUStmt, if_neg hne]
+      have hsb : slotBytes C env' (.optInts b 4 .le f0 3 (some k)) = [] := by
+        simp only [slotBytes, hx, hany, Bool.false_eq_true, if_false]
+      have hinv' := hinv.step (sl := .optInts b 4 .le f0 3 (some k)) hok.1
+      rw [hsb] at hinv'
+      simp only [List.length_nil, Nat.add_zero] at hinv'
+      have hz : xs = List.replicate 3 0 := by
+        have hall : ∀ q ∈ xs, q = 0 := by
+          intro q hq
+          by_cases hq0 : q = 0
+          · exact hq0
+          · exact absurd (List.any_eq_true.2 ⟨q, hq, by simpa using hq0⟩) hany
+        match xs, hlen3, hall with
+        | [x, y, z], _, hall =>
+          rw [hall x (by simp), hall y (by simp), hall z (by simp)]; rfl
+      have hx' : env'.get f0 = some (.ns (List.replicate 3 0)) := by rw [hx, hz]
+      obtain ⟨d, hd, hseen, hagree⟩ := ih u' (pos.read b) (f0 :: seen) s1 pad hl' hok.2 hrel'
+        (fun sl h => hfit sl (List.mem_cons_of_mem _ h)) (restOnlyLast_tail hrest) hinv' (hag.set f0 _ hx')
+        (hsz.set f0 _ hx') hwc.tail hpd hpl
+      exact ⟨d, by rw [go_next2 r h0 h1]; exact hd, fun g hg => hseen g (List.mem_cons_of_mem _ hg),
+        fun hnf g hg => hagree hnf g (mem_shift hg)⟩
+  | case26 f0 n k b g b' f m r hc => intro u pos seen s pad hl; simp [layoutUL, hc] at hl
+  | case27 e r ih =>
     intro u pos seen s pad hl hok hrel hfit hrest hinv hag hsz hwc hpd hpl
     simp only [recvFields] at hsz
     simp only [layoutUL] at hl
@@ -770,7 +879,7 @@ theorem runU_go_layoutL {C : Codecs} {T : String → Prop} (hC : LawfulCodecs C 
       rw [go_next r h1]
       exact ih u pos seen { s with pad := n } n hl hok.2 hrel hfit hrest hinv hag hsz hwc rfl hpl
     · cases hrel
-  | case26 r ih =>
+  | case28 r ih =>
     intro u pos seen s pad hl hok hrel hfit hrest hinv hag hsz hwc hpd hpl
     simp only [recvFields] at hsz
     simp only [layoutUL] at hl
@@ -780,7 +889,7 @@ theorem runU_go_layoutL {C : Codecs} {T : String → Prop} (hC : LawfulCodecs C 
     have h1 : runUStmt C s .padRoundUp = .next { s with pad := if s.pad % 2 = 1 then s.pad + 1 else s.pad } := by rw [runUStmt]
     rw [go_next r h1]
     exact ih u pos seen _ _ hl hok hrel hfit hrest hinv hag hsz hwc rfl hpl
-  | case27 r ih =>
+  | case29 r ih =>
     intro u pos seen s pad hl hok hrel hfit hrest hinv hag hsz hwc hpd hpl
     simp only [recvFields] at hsz
     simp only [layoutUL] at hl
@@ -791,7 +900,7 @@ theorem runU_go_layoutL {C : Codecs} {T : String → Prop} (hC : LawfulCodecs C 
     have h1 : runUStmt C s .padIfPOdd = .next { s with pad := if (s.P.length + 3) % 2 = 1 then 1 else s.pad } := by rw [runUStmt]
     rw [go_next r h1]
     exact ih u pos seen _ _ hl hok hrel hfit hrest hinv hag hsz hwc rfl rfl
-  | case28 head tail h1 h2 h3 h4 h5 h6 h7 h8 h9 h10 h11 h12 h13 h14 h15 h16 h17 h18 =>
+  | case30 head tail h1 h2 h3 h4 h5 h6 h7 h8 h9 h10 h11 h12 h13 h14 h15 h16 h17 h18 h19 =>
     intro u pos seen s pad hl
     rw [layoutUL] at hl
     · cases hl
